@@ -229,7 +229,8 @@ def gen_hier(rng):
                 members.append({"name": nm, "kind": "default", "doc": rng.choice([None, f"{name}.{nm} doc"])})
             else:
                 members.append({"name": nm, "kind": rng.choice(["state", "timed"]), "first": rng.random() < p_first,
-                                "doc": rng.choice([None, f"{name}.{nm} doc", f"\n    {name}.{nm}\n      indented\n    "])})
+                                "doc": rng.choice([None, f"{name}.{nm} doc", f"\n    {name}.{nm}\n      indented\n    ",
+                                                   f"{name}.{nm}: " + "a long description of what this state does, " * 9])})
         out.append({"name": name, "bases": bases, "members": members})
     return {"mode": "hier", "shape": shape, "classes": out, "instantiate_bases": rng.random() < 0.5, "reuse_name": rng.random() < 0.2}
 
